@@ -69,6 +69,9 @@ def first_datagrams_case(ctx, case):
                 if t is None:
                     ctx.violation("no-timer-on-live-connection", "client after connect(): get_timer() is None", case)
                     return
+            if not fed and case["state"] == "fresh-server":
+                ctx.case(("first", repr(case)), nontrivial=False, classes=cls + ["first:nothing-fed"])
+                return
             # silence: only timers from now on
             budget = max(idle, 3 * sut._loss.get_probe_timeout()) + 1.0
             for _ in range(400):
@@ -111,7 +114,7 @@ def first_datagrams_task(ctx, examples, shard):
     from vlib.harness import run_hypothesis
 
     states = st.sampled_from(["fresh-server", "fresh-server", "fresh-server", "client-connecting", "server-after-initial", "client-after-server-flight", "server-after-client-finished", "connected-server", "connected-client"])
-    strat = st.tuples(C05.raw_strategy(), states).map(lambda t: dict(t[0], kind="first", state=t[1], inputs=[i for i in t[0]["inputs"] if i[0] != "coalesce"] or [("bytes", b"\x00")]))
+    strat = st.tuples(C05.raw_strategy(), states).map(lambda t: dict(t[0], kind="first", state=t[1], inputs=[i for i in t[0]["inputs"] if i[0] in ("bytes", "genuine", "mutated")] or [("bytes", b"\x00")]))
 
     def body(ctx, case):
         first_datagrams_case(ctx, case)
